@@ -168,6 +168,10 @@ theorem sched_ge_fault (w : World) (a s : Nat) (sig t pri : Int) (ht : w.now ≤
   unfold cancelKindFor
   exact foldl_keeps (fun w => w.fault) _ (fun w q => evCancel_fault w q) _ w
 
+@[simp] theorem cancelUserAll_fault (w : World) : (cancelUserAll w).1.fault = w.fault := by
+  unfold cancelUserAll
+  exact foldl_keeps (fun w => w.fault) _ (fun w q => evCancel_fault w q) _ w
+
 @[simp] theorem recordRes_fault (w : World) (r : Nat) : (recordRes w r).fault = w.fault := by
   unfold recordRes; splits_rfl
 @[simp] theorem recordPool_fault (w : World) (r : Nat) : (recordPool w r).fault = w.fault := by
@@ -226,6 +230,8 @@ theorem Safe.cancelAllFor (h : Safe ex w) (p : Pid) : Safe ex (cancelAllFor w p)
   h.same (by simp) (by simp) (by simp) ((Stat.refl w).cancelAllFor p)
 theorem Safe.cancelKindFor_fst (h : Safe ex w) (p : Pid) (act : Nat) (sig : Option Int) : Safe ex (cancelKindFor w p act sig).1 :=
   h.same (by simp) (by simp) (by simp) ((Stat.refl w).cancelKindFor_fst p act sig)
+theorem Safe.cancelUserAll_fst (h : Safe ex w) : Safe ex (cancelUserAll w).1 :=
+  h.same (by simp) (by simp) (by simp) ((Stat.refl w).cancelUserAll_fst)
 theorem Safe.recordRes (h : Safe ex w) (r : Nat) : Safe ex (recordRes w r) :=
   h.same (by simp) (by simp) (by simp) ((Stat.refl w).recordRes r)
 theorem Safe.recordBuf (h : Safe ex w) (r : Nat) : Safe ex (recordBuf w r) :=
@@ -437,6 +443,7 @@ macro_rules | `(tactic| safe_step) => `(tactic| with_reducible apply Safe.record
 macro_rules | `(tactic| safe_step) => `(tactic| with_reducible apply Safe.recordRes)
 macro_rules | `(tactic| safe_step) => `(tactic| with_reducible apply Safe.setPoolInUse)
 macro_rules | `(tactic| safe_step) => `(tactic| with_reducible apply Safe.cancelKindFor_fst)
+macro_rules | `(tactic| safe_step) => `(tactic| with_reducible apply Safe.cancelUserAll_fst)
 macro_rules | `(tactic| safe_step) => `(tactic| with_reducible apply Safe.cancelAllFor)
 macro_rules | `(tactic| safe_step) => `(tactic| with_reducible apply Safe.evCancel_fst)
 macro_rules | `(tactic| safe_step) => `(tactic| with_reducible apply Safe.wakeEventWaiters)
